@@ -5,6 +5,8 @@ Require Import Rig.Generated.GenTable Rig.Model.Base Rig.Model.Table Rig.Spec.Ta
 Import ListNotations.
 Open Scope Z_scope.
 
+Local Arguments bits32 : simpl never.
+
 (* ------------------------------------------------------------------------------------------------ *)
 (** * Cubes at the level of bits *)
 
@@ -253,7 +255,7 @@ Lemma cube_sub_cover : forall c d k,
   wfb c -> wfb d -> mask32b (snd d) -> inb c k -> km_matches d k = false ->
   exists c', In c' (cube_sub c d) /\ wfb c' /\ inb c' k.
 Proof.
-  intros [ck cm] [dk dm] k Hwc Hwd H32 Hin Hnm. unfold cube_sub; simpl.
+  intros [ck cm] [dk dm] k Hwc Hwd H32 Hin Hnm. unfold cube_sub; cbn [fst snd].
   destruct (intersect ck cm dk dm) eqn:Hi.
   - destruct (cube_sub_bits_cover32 ck cm dk dm k Hwc Hwd H32 (intersect_agree _ _ _ _ Hi) Hin Hnm)
       as [c' [Hc' Hk']].
@@ -265,7 +267,7 @@ Qed.
 
 Lemma cube_sub_wf : forall c d, wfb c -> Forall wfb (cube_sub c d).
 Proof.
-  intros [ck cm] [dk dm] Hw. unfold cube_sub; simpl.
+  intros [ck cm] [dk dm] Hw. unfold cube_sub; cbn [fst snd].
   destruct (intersect ck cm dk dm).
   - apply cube_sub_bits_wf; [exact bits32_nonneg | exact Hw].
   - constructor; [exact Hw | constructor].
@@ -315,19 +317,29 @@ Definition routed_like (e : entry) (T : table) (k : Z) : Prop :=
   | None => default_routable e
   end.
 
+Lemma check_cube_cons : forall e t T' c,
+  check_cube e (t :: T') c =
+  if wf_km (km_of t) && intersect (fst c) (snd c) (e_key t) (e_mask t)
+  then routes_likeb e t
+       && forallb (check_cube e T') (cube_sub_bits bits32 (fst c) (snd c) (e_key t) (e_mask t))
+  else check_cube e T' c.
+Proof. reflexivity. Qed.
+
 Lemma check_cube_sound : forall e T c k,
   Forall (fun t => sane t = true) T ->
   check_cube e T c = true -> wfb c -> inb c k -> routed_like e T k.
 Proof.
   intros e T. induction T as [| t T' IH]; intros c k Hsane Hchk Hwc Hk; unfold routed_like, lookup in *.
   - simpl in *. apply default_routableb_spec. exact Hchk.
-  - inversion Hsane as [| ? ? Hst HsT']; subst. simpl in Hchk. simpl.
+  - inversion Hsane as [| ? ? Hst HsT']; subst. rewrite check_cube_cons in Hchk.
+    change (find (fun e0 => matches e0 k) (t :: T'))
+      with (if matches t k then Some t else find (fun e0 => matches e0 k) T').
     destruct (wf_km (km_of t) && intersect (fst c) (snd c) (e_key t) (e_mask t)) eqn:Hcond.
     + apply andb_true_iff in Hcond. destruct Hcond as [Hwt Hi].
       apply andb_true_iff in Hchk. destruct Hchk as [Hrl Hall].
       destruct (matches t k) eqn:Hm.
       * apply routes_likeb_spec. exact Hrl.
-      * destruct c as [ck cm]. simpl in *.
+      * destruct c as [ck cm]. cbn [fst snd] in *.
         destruct (cube_sub_bits_cover32 ck cm (e_key t) (e_mask t) k) as [c' [Hc' Hk']].
         -- exact Hwc.
         -- apply wf_km_wfb in Hwt. exact Hwt.
